@@ -59,6 +59,18 @@ binding:   (a) every edge of the closed LTS (control state x class) is replayed:
            objects / order: the same text is parsed repeatedly, strict and lenient alternating, both
                allow_empty_author values in random order (every repetition must agree); earlier
                Changelog objects are kept alive and re-verified after other objects were used.
+           forms: every text arrives in one of the documented input forms (str, bytes, StringIO, BytesIO, real
+               file, lists of str / bytes lines with and without newlines, generator, tuple,
+               parse_changelog() on a new / used object) -- identical verdicts; the "empty file" rule
+               exists for the text forms only (spec: PEofF, FormsAgree).
+           characters: notes/SIZE_STRESS.md part 2 (non-NFC text and twins, case-mapping hazards, U+FEFF at
+               the start of a text / line, joiners, non-BMP, look-alike white space inside tokens, tab
+               indentation).
+           version setter: Changelog.version / set_version with a valid version plus leading / trailing
+               white space or a newline (SetVersionWS) is outside DESIGN D3 but "unspecified-but-
+               consistent": either ValueError, or the changelog still formats to a normal form
+               (negative control Bug = "acceptsNewlineVersion" -> NormalFormEdited).  Block-level
+               assignment (block.version = ...) does not validate and stays under D3.
 verdict observables (the statement): the lenient constructor returns; number of warnings > 0 <=> the
            strict constructor raises ChangelogParseError, no other exception type; whenever str()
            succeeds (ChangelogCreateError = "cannot be formatted", any other exception is a
@@ -83,7 +95,7 @@ from lts import skey
 MANIFEST = dict(
     technique="TLA+ spec Changelog (parse_changelog as five-state automaton over 24 line classes with incremental outputs, EOF / empty-file rules, formatter, editing calls) model-checked by TLC: closed LTS (Total, Deterministic, StrictIffWarn) and bounded mutated texts / edit histories (NormalForm); every LTS edge, every bounded text and every edit history replayed into Changelog with both allow_empty_author settings; prefix-closure traces of mutated changelogs and random edit histories validated by TLC (TraceChangelog)",
     text="TLC explores the closed control-state space of the parser (5 states x flags, 24 line classes, both allow_empty_author settings) and checks that exactly one branch handles every class in every state, that the if/elif cascade equals the guard table, and that a strict run raises exactly when the lenient run has warned, including the end-of-input and empty-file rules. A bounded configuration enumerates every text of up to 6 lines that is one or two line mutations (insert any class, delete, duplicate) away from a well-formed changelog, plus all prefixes, and checks that whatever the parser builds, if it can be formatted, formats to a fixpoint of parse-then-format with the same blocks; an edit configuration does the same after up to 4 editing calls on empty or parsed changelogs. All of these texts and histories are concretized (old-format markers, mode lines, keywords, comments, one-space and bare trailers, junk, defective headers) and replayed into the real class: the lenient constructor must return, warnings > 0 must coincide with ChangelogParseError from the strict constructor, and str() output must re-parse to the same blocks and the identical text. Random mutated changelogs of up to 60 lines and random editing histories are recorded by prefix closure with independently classified lines and validated by TLC.",
-    note="Small scope: closed LTS over classes (unbounded length), normal-form law exhaustively for <= 6 lines / <= 2 mutations / <= 4 edits; longer inputs sampled. The C15 verdicts are the self-consistency laws of the statement; TLC's predictions of warnings, counts and contents are diagnostics (drift). Unspecified: author/date assigned on a block without trailer. Lines never contain a str.splitlines() boundary character (DESIGN D1); editing calls get well-formed values (D3). Seven spec-level negative controls (among them the two formatter caches of the round-2 seeded changes) and corrupted control traces are required to fail (quick tier: three of them). Formatting is part of every history (formatted before and between edits, edits on older blocks and in place); sizes follow notes/SIZE_STRESS.md.",
+    note="Small scope: closed LTS over classes (unbounded length), normal-form law exhaustively for <= 6 lines / <= 2 mutations / <= 4 edits; longer inputs sampled. The C15 verdicts are the self-consistency laws of the statement; TLC's predictions of warnings, counts and contents are diagnostics (drift). Unspecified: author/date assigned on a block without trailer. Lines never contain a str.splitlines() boundary character (DESIGN D1); editing calls get well-formed values (D3). Nine spec-level negative controls (among them the two formatter caches of the round-2 seeded changes) and corrupted control traces are required to fail (quick tier: three of them). Formatting is part of every history (formatted before and between edits, edits on older blocks and in place); sizes follow notes/SIZE_STRESS.md.",
     design="5 (C15)")
 
 SUBSET = '{"Junk", "EndNoDetails", "EndOneSpace", "Vim", "HashComment", "TopBadKV", "Old8"}'
@@ -215,7 +227,7 @@ def replay_edge(ctx, rng, e, path, eof, canonical, completion=(), stress=False):
     for n in (len(lines) - 1, len(lines), len(lines_full)):
         if n == 0:
             continue
-        form = rng.choice(cc.FORMS)
+        form = rng.choice(cc.FORMS_W)
         msg, _info = cc.c15_laws(cc.join(lines_full[:n]), aea, rng, form)
         if msg:
             case["form"] = form
@@ -254,7 +266,7 @@ def replay_text(ctx, rng, case, aea, canonical, stats, stress=False, alive=None)
     classes = case["t"]
     lines, _ = cc.conc_text(rng, classes, canonical=canonical, stress=stress)
     text = cc.join(lines)
-    form = rng.choice(cc.FORMS)
+    form = rng.choice(cc.FORMS_W)
     msg, info = cc.c15_laws(text, aea, rng, form)
     if alive is not None and info.get("cl") is not None:
         alive.add(info["cl"], "text %s" % "".join(c[0] for c in classes))
@@ -317,7 +329,7 @@ def replay_edit(ctx, rng, case, canonical, stats):
     lines, _ = cc.conc_text(rng, classes, canonical=canonical)
     calls = [[op, cc.conc_edit(rng, op, canonical, uid=i), rng.randrange(6)] for i, op in enumerate(ops)]
     rec = {"kind": "edit", "lines": lines, "aea": aea, "classes": classes, "calls": calls, "specified": case["spec"],
-           "form": rng.choice(cc.TEXT_FORMS if not "".join(lines).strip() else cc.FORMS)}
+           "form": rng.choice(cc.TEXT_FORMS if not "".join(lines).strip() else cc.FORMS_W)}
     msg = run_edit(rec)
     if isinstance(msg, tuple):          # diagnostics
         fmt_ok = msg[1]
@@ -460,7 +472,7 @@ def run(ctx):
     ctx.extra["lts_edges_replayed"] = n_edges
     ctx.extra["model_constants"] = {"classes": len(cc.ALL_CLASSES), "AEAs": [True, False],
                                     "text": "MaxLines 6, Budget 1" if quick else "MaxLines 5 / Budget 2 and MaxLines 7 / Budget 1",
-                                    "edit": "MaxLines 3, Budget 1, 5 classes, MaxEdits 2" if quick else "MaxLines 3, Budget 1, 7 classes, MaxEdits 3 and MaxLines 2, Budget 0, MaxEdits 4"}
+                                    "edit": "MaxLines 3, Budget 1, 4 classes, MaxEdits 2" if quick else "MaxLines 3, Budget 1, 7 classes, MaxEdits 3 and MaxLines 2, Budget 0, MaxEdits 4"}
     e = step_edges[len(step_edges) // 3]
     ctx.sample("lts edge: " + json.dumps(e, separators=(",", ":")))
 
